@@ -172,6 +172,10 @@ RightFailClass(cfg, rel, dflt) ==
     ELSE IF cfg.R >= 5 /\ (rel.u = "same" => cfg.ulen > 127) /\ (rel.o = "same" => cfg.olen > 127) THEN "pw.gt127.R56"
     ELSE dflt
 
+\* why the content came back wrong although a right password was accepted
+ContentFailClass(cfg, rel, dflt) ==
+    IF cfg.R <= 4 /\ rel.o = "same" /\ rel.u = "diff" THEN "owner.R234.key" ELSE dflt
+
 -----------------------------------------------------------------------------
 (* Declarative layer: Judge.                                                *)
 (* cfg = [V, R, klen, em, cf, stmf, strf, ulen, olen, e, nobj0]             *)
@@ -189,9 +193,10 @@ Vd(ok, tags, j) == [ok |-> ok, tags |-> tags, j |-> j]
 
 Resync(ev, viaFile) == IF ~ev.tenc /\ AllEq(ev.items, viaFile) THEN "plain" ELSE "lost"
 
-RestoredTags(cfg, ev, viaFile) ==
+\* content: the tag for "some item is not restored" (a narrow class where the call belongs to one)
+RestoredTags(cfg, ev, viaFile, content) ==
     (IF ev.tenc \/ ev.nobj # cfg.nobj0 THEN {"restored.encdict"} ELSE {})
-    \cup (IF ~AllEq(ev.items, viaFile) THEN {"restored.content"} ELSE {})
+    \cup (IF ~AllEq(ev.items, viaFile) THEN {content} ELSE {})
 
 JudgeEncrypt(cfg, j, ev) ==
     IF j.mem # "plain" THEN Vd(TRUE, {"ok-unjudged"}, [j EXCEPT !.mem = IF ev.same THEN j.mem ELSE "lost"])
@@ -208,20 +213,18 @@ JudgeDecrypt(cfg, j, ev) ==
     ELSE IF Right(ev.rel)
     THEN IF ev.res # "Ok"
          THEN Vd(FALSE, {RightFailClass(cfg, ev.rel, "either.rejected")}, [j EXCEPT !.mem = IF ev.same THEN "enc" ELSE "lost"])
-         ELSE LET t == RestoredTags(cfg, ev, j.via) IN
+         ELSE LET t == RestoredTags(cfg, ev, j.via, ContentFailClass(cfg, ev.rel, "restored.content")) IN
               IF t = {} THEN Vd(TRUE, {"ok-restored"}, [j EXCEPT !.mem = "plain"])
-              ELSE Vd(FALSE, IF t = {"restored.content"} THEN {RightFailClass(cfg, ev.rel, "restored.content")} ELSE t,
-                     [j EXCEPT !.mem = Resync(ev, j.via)])
+              ELSE Vd(FALSE, t, [j EXCEPT !.mem = Resync(ev, j.via)])
     ELSE IF Wrong(ev.rel)
     THEN IF ev.res = "Ok" THEN Vd(FALSE, {"rejects.accepted"}, [j EXCEPT !.mem = Resync(ev, j.via)])
          ELSE IF ~ev.same THEN Vd(FALSE, {"rejects.mutated"}, [j EXCEPT !.mem = "lost"])
          ELSE Vd(TRUE, {"ok-rejected"}, j)
     ELSE \* an equivalent password: acceptance is not demanded, but an accepted one must restore
          IF ev.res = "Ok"
-         THEN LET t == RestoredTags(cfg, ev, j.via) IN
+         THEN LET t == RestoredTags(cfg, ev, j.via, IF cfg.R <= 4 /\ ev.rel.u = "diff" THEN "owner.R234.key" ELSE "restored.content") IN
               IF t = {} THEN Vd(TRUE, {"ok-equiv-restored"}, [j EXCEPT !.mem = "plain"])
-              ELSE Vd(FALSE, IF t = {"restored.content"} /\ cfg.R <= 4 /\ ev.rel.u = "diff" THEN {"owner.R234.key"} ELSE t,
-                     [j EXCEPT !.mem = Resync(ev, j.via)])
+              ELSE Vd(FALSE, t, [j EXCEPT !.mem = Resync(ev, j.via)])
          ELSE Vd(TRUE, {"ok-equiv-rejected"}, [j EXCEPT !.mem = IF ev.same THEN "enc" ELSE "lost"])
 
 JudgeAuth(cfg, j, ev) ==
@@ -254,10 +257,9 @@ JudgeLoad(cfg, j0, ev) ==
                        \cup {"viafile." \o c : c \in HiddenFails(cfg, ev.items) \ {"streamdict.string", "crypt.dparray", "metadata.nonstream"}}
               IN Vd(t = {}, IF t = {} THEN {"ok-loaded-enc"} ELSE t, [j EXCEPT !.mem = IF t = {} THEN "enc" ELSE "lost"])
          ELSE IF Wrong(cfg.e) THEN Vd(FALSE, {"rejects.load.autodecrypt"}, [j EXCEPT !.mem = Resync(ev, TRUE)])
-         ELSE LET t == RestoredTags(cfg, ev, TRUE) IN
+         ELSE LET t == RestoredTags(cfg, ev, TRUE, LoadFailClass(cfg, "restored.content")) IN
               IF t = {} THEN Vd(TRUE, {"ok-loaded-autodecrypted"}, [j EXCEPT !.mem = "plain"])
-              ELSE Vd(FALSE, IF t = {"restored.content"} THEN {LoadFailClass(cfg, "viafile.restored.content")} ELSE {"viafile." \o c : c \in t},
-                     [j EXCEPT !.mem = Resync(ev, TRUE)])
+              ELSE Vd(FALSE, {IF c = "owner.R234.key" THEN c ELSE "viafile." \o c : c \in t}, [j EXCEPT !.mem = Resync(ev, TRUE)])
     ELSE IF j.disk = "plain"
     THEN IF ev.res = "Ok" /\ ~ev.tenc /\ ev.nobj = cfg.nobj0 /\ AllEq(ev.items, TRUE) THEN Vd(TRUE, {"ok-loaded-plain"}, [j EXCEPT !.mem = "plain"])
          ELSE Vd(TRUE, {"ok-plainfile-differs"}, [j EXCEPT !.mem = IF ev.res = "Ok" THEN Resync(ev, TRUE) ELSE j.mem])
